@@ -520,6 +520,33 @@ func propTable() map[string]*PropSpec {
 			Outside:      []string{"real-time 'indefinitely'; syncs racing a commit on the real scheduler"},
 		}
 	}
+	// second opinion in the thorough tier of the arithmetic checks: every verdict must come from two back ends
+	for _, id := range []string{"C06", "C18", "C19"} {
+		sp := t[id]
+		th := append([]RunConfig{}, sp.Thorough...)
+		for i := range th {
+			th[i].Confirm = true
+		}
+		sp.Thorough = th
+		sp.Bounds = append(sp.Bounds, "thorough tier: each assertion verdict is accepted only if two SMT back ends (of cvc5 int-blasting, z3 5.1, cvc5) give it, when a second one answers within the time limit")
+	}
+
+	// map iteration order is unspecified in Go: the thorough tier repeats the runs whose outcome could depend on
+	// it (stored votes / commits are collected by ranging over maps) with every map range reversed
+	for _, id := range []string{"C03", "C04", "C09", "C11"} {
+		sp := t[id]
+		var extra []RunConfig
+		for _, c := range sp.Thorough {
+			r := c
+			r.Name += "/maps=reversed"
+			r.MapReverse = true
+			r.RequireReach = nil // reach markers are validated natively in the forward-order runs
+			extra = append(extra, r)
+		}
+		sp.Thorough = append(sp.Thorough, extra...)
+		sp.Bounds = append(sp.Bounds, "map ranges are iterated in insertion order; the thorough tier repeats every configuration with all map ranges reversed (Go's order is random; other permutations are outside)")
+	}
+
 	// ---------------- C01 ----------------
 	{
 		mk := func(byz, prefix, timeout, steps, kinds, class, redeliver, recipients int) RunConfig {
